@@ -22,7 +22,16 @@ func H_C18() {
 	api := newMemAPI()
 	base, err := cbor.IO(&entry.Entry{}, &entry.LamportClock{})
 	vx.Assert("C18", err == nil, "the codec is available")
-	kw, _ := enc.NewSecretbox(linkKeyBytes(7))
+	kbuf := linkKeyBytes(7)
+	kw, _ := enc.NewSecretbox(kbuf)
+	if vx.Choice("keyBufferReused", 2) == 1 {
+		// key hygiene / a scratch buffer: the caller wipes or reuses its key bytes once the box is made; the
+		// codec keeps working with the key it was configured with
+		for i := range kbuf {
+			kbuf[i] = 9
+		}
+		vx.Cover("key-buffer-reused")
+	}
 	ko, _ := enc.NewSecretbox(linkKeyBytes(9))
 	ioW := base.ApplyOptions(&cbor.Options{LinkKey: kw})
 	nNext := vx.Choice("nNext", 3)
@@ -76,7 +85,8 @@ func H_C18() {
 	reader := vx.Choice("reader", 3)
 	switch reader {
 	case 0: // same key
-		ioR := base.ApplyOptions(&cbor.Options{LinkKey: kw})
+		kr, _ := enc.NewSecretbox(linkKeyBytes(7)) // the reader's own box over the same key bytes
+		ioR := base.ApplyOptions(&cbor.Options{LinkKey: kr})
 		d, err := entry.FromMultihashWithIO(ctx, api, e.GetHash(), ids[0].Provider, ioR)
 		vx.Assert("C18", err == nil && d != nil, "a reader with the same key can read the entry")
 		if err != nil {
